@@ -182,7 +182,7 @@ class MetahandlerLevel(Facet):
 # ---- facet B: in-program ----------------------------------------------------------------
 class InProgram(Facet):
     name = "refinements_in_programs"
-    flags = Flags(dependent=True, weighted_string=True, interval_range=True, tuples=True)
+    flags = Flags(dependent=True, infeasible=True, weighted_string=True, interval_range=True, tuples=True)
     reps = ("tree", "ge", "sge", "dsge")
 
     def budget(self, tier):
